@@ -59,6 +59,68 @@ type Style struct {
 	Parens ParenStyle
 	Layout Layout
 	Rng    *rand.Rand // for RedundantParens and NewlineLayout
+	// Marks inserts span markers (SpaceLayout only): MarkOpen right after
+	// the opening delimiter of a block, string, object literal, comment or
+	// directive argument list, MarkClose right after its closing delimiter
+	Marks bool
+}
+
+const (
+	MarkOpen  = "\uE001"
+	MarkClose = "\uE002"
+)
+
+// Span is a byte range [Open, Close) of cut positions that leave the
+// construct unterminated: a prefix s[:o] with Open <= o < Close has the
+// opening delimiter but not the closing one
+type Span struct {
+	Open, Close int
+	Kind        string
+}
+
+// StripMarks removes the markers and returns the spans they delimit. Kinds
+// are taken from the rune following MarkOpen: b(lock) s(tring) o(bject)
+// c(omment) a(rgument list)
+func StripMarks(marked string) (string, []Span) {
+	var sb strings.Builder
+	var stack []Span
+	var spans []Span
+	rs := []rune(marked)
+	for i := 0; i < len(rs); i++ {
+		switch string(rs[i]) {
+		case MarkOpen:
+			kind := "?"
+			if i+1 < len(rs) {
+				kind = string(rs[i+1])
+				i++
+			}
+			stack = append(stack, Span{Open: sb.Len(), Kind: kind})
+		case MarkClose:
+			if len(stack) > 0 {
+				sp := stack[len(stack)-1]
+				stack = stack[:len(stack)-1]
+				sp.Close = sb.Len()
+				spans = append(spans, sp)
+			}
+		default:
+			sb.WriteRune(rs[i])
+		}
+	}
+	return sb.String(), spans
+}
+
+func (st Style) open(kind string) string {
+	if st.Marks {
+		return MarkOpen + kind
+	}
+	return ""
+}
+
+func (st Style) close() string {
+	if st.Marks {
+		return MarkClose
+	}
+	return ""
 }
 
 // power of the operator at the root of e as seen from the left (what a
@@ -156,13 +218,17 @@ func isOperatorNode(e Expr) bool {
 func (p *printer) expr1(e Expr) {
 	switch n := e.(type) {
 	case Lit:
-		p.emit(litSource(n.V))
+		if n.V.K == KStr {
+			p.emit(p.st.quote(n.V.S, '"'))
+		} else {
+			p.emit(litSource(n.V))
+		}
 	case StrLit:
 		q := n.Quote
 		if q == 0 {
 			q = '"'
 		}
-		p.emit(QuoteString(n.S, q))
+		p.emit(p.st.quote(n.S, q))
 	case Var:
 		p.emit(n.Name)
 	case Paren:
@@ -221,7 +287,7 @@ func (p *printer) expr1(e Expr) {
 		}
 		p.emit("]")
 	case ObjLit:
-		p.emit("{")
+		p.emit("{" + p.st.open("o"))
 		for i, k := range n.Keys {
 			if i > 0 {
 				p.emit(",")
@@ -232,7 +298,7 @@ func (p *printer) expr1(e Expr) {
 				p.expr(n.Vals[i])
 			}
 		}
-		p.emit("}")
+		p.emit("}" + p.st.close())
 	default:
 		p.emit("<?>")
 	}
@@ -269,6 +335,14 @@ func litSource(v Value) string {
 		return QuoteString(v.S, '"')
 	}
 	return "<?>"
+}
+
+func (st Style) quote(s string, q byte) string {
+	lit := QuoteString(s, q)
+	if !st.Marks {
+		return lit
+	}
+	return lit[:1] + st.open("s") + lit[1:] + st.close()
 }
 
 // QuoteString writes a string literal: a backslash goes before every
